@@ -808,6 +808,19 @@ func (s *Silences) indexSilence(sil *pb.Silence) {
 	}
 }
 
+// reindexSilence moves an updated silence to the end of the version index
+// under a new version. The matcher index is keyed by ID and stays valid.
+func (s *Silences) reindexSilence(sil *pb.Silence) {
+	s.version++
+	for i, sv := range s.vi {
+		if sv.id == sil.Id {
+			s.vi = append(s.vi[:i], s.vi[i+1:]...)
+			break
+		}
+	}
+	s.vi.add(s.version, sil.Id)
+}
+
 func (s *Silences) getSilence(id string) (*pb.Silence, bool) {
 	msil, ok := s.st[id]
 	if !ok {
@@ -1315,6 +1328,12 @@ func (s *Silences) Merge(b []byte) error {
 		if merged {
 			if added {
 				s.indexSilence(e.Silence)
+			} else {
+				// A newer version of a known silence may make it active or
+				// pending again (e.g. a late update that extends a silence
+				// which already ended here). Give it a new version so that
+				// results cached for older versions are re-evaluated.
+				s.reindexSilence(e.Silence)
 			}
 			if !cluster.OversizedMessage(b) {
 				// If this is the first we've seen the message and it's
